@@ -414,7 +414,12 @@ where
                     format!("Path expected: {path_str}"),
                 ));
             }
-            let path = Path::from_escaped_string(path_str.trim()).map_err(|e| {
+            // Strip exactly the indentation and the line terminator. Leading and trailing
+            // whitespace of any kind is a part of the file name (control characters are escaped).
+            let path = path_str.strip_prefix("    ").unwrap_or(path_str);
+            let path = path.strip_suffix('\n').unwrap_or(path);
+            let path = path.strip_suffix('\r').unwrap_or(path);
+            let path = Path::from_escaped_string(path).map_err(|e| {
                 Error::new(
                     ErrorKind::InvalidData,
                     format!("Invalid path {path_str}: {e}"),
